@@ -52,6 +52,19 @@ func genC15(t *rapid.T) *c15Case {
 		c.SrcArg = "/"
 	case k <= 3:
 		c.SrcArg = c.Src.Nodes[rapid.IntRange(0, len(c.Src.Nodes)-1).Draw(t, "srcnode")].Path
+		// follow-links: the argument names a symbolic link and stands for what it points to
+		if rapid.Bool().Draw(t, "follow") {
+			c.Opts.Follow = true
+			var links []string
+			for _, n := range c.Src.Nodes {
+				if n.Kind == h.KSymlink {
+					links = append(links, n.Path)
+				}
+			}
+			if len(links) > 0 {
+				c.SrcArg = rapid.SampledFrom(links).Draw(t, "srclink")
+			}
+		}
 	default:
 		c.Opts.Wildcards = true
 		c.SrcArg = rapid.SampledFrom([]string{"*", "a*", "?", "*/a", "a/*", "*b", "[ab]", "zz*"}).Draw(t, "glob")
@@ -111,7 +124,7 @@ func genC15(t *rapid.T) *c15Case {
 }
 
 func c15Real(c *c15Case, srcRoot, dstRoot string) error {
-	ci := fscopy.CopyInfo{CopyDirContents: c.Opts.DirContents, AlwaysReplaceExistingDestPaths: c.Opts.AlwaysReplace, AllowWildcards: c.Opts.Wildcards}
+	ci := fscopy.CopyInfo{CopyDirContents: c.Opts.DirContents, AlwaysReplaceExistingDestPaths: c.Opts.AlwaysReplace, AllowWildcards: c.Opts.Wildcards, FollowLinks: c.Opts.Follow}
 	return fscopy.Copy(context.Background(), srcRoot, c.SrcArg, dstRoot, c.DstArg, fscopy.WithCopyInfo(ci))
 }
 
@@ -206,7 +219,7 @@ func c15Check(env *h.Env, c *c15Case) error {
 	if err != nil {
 		return h.Infra(err)
 	}
-	what := fmt.Sprintf("Copy(src=%q, dst=%q, dir-contents=%v, always-replace=%v, wildcards=%v)", c.SrcArg, c.DstArg, c.Opts.DirContents, c.Opts.AlwaysReplace, c.Opts.Wildcards)
+	what := fmt.Sprintf("Copy(src=%q, dst=%q, dir-contents=%v, always-replace=%v, wildcards=%v, follow-links=%v)", c.SrcArg, c.DstArg, c.Opts.DirContents, c.Opts.AlwaysReplace, c.Opts.Wildcards, c.Opts.Follow)
 	st := h.NewCpState(c.Dst)
 	srcPath := c.SrcArg
 	if srcPath == "/" {
@@ -230,6 +243,12 @@ func c15Check(env *h.Env, c *c15Case) error {
 	}
 	if c.Opts.Wildcards {
 		env.Class("wildcard")
+	}
+	if c.Opts.Follow {
+		if n, ok := c.Src.Index()[strings.Trim(c.SrcArg, "/")]; ok && n.Kind == h.KSymlink {
+			env.Class("follow-links-source-is-a-link")
+			env.NonTrivial()
+		}
 	}
 	if strings.HasSuffix(c.DstArg, "/") && c.DstArg != "/" {
 		env.Class("trailing-separator")
